@@ -23,6 +23,9 @@ CONSTANTS Cap,          \* Builder::tcp_capacity
           DestKinds,    \* subset of {"srv", "none"}: connect to the server / to an address nobody owns
           BindKinds,    \* subset of {"any", "lo"}
           WriteLens, ReadSizes, PeekSizes,
+          NPorts,       \* size of the ephemeral port range of every host (0 = never wraps: every
+                        \* connector gets a port of its own); with a small range a connector re-uses
+                        \* the address of an earlier one and segments are matched by address
           MaxWrites,    \* accepted writes per direction
           MaxAct        \* bound on the number of actions
 
@@ -37,10 +40,12 @@ VARIABLES
     lq,      \* [PortIds -> [bound, kind, q]]  ServerSocket: bind address kind + deque of SYNs
     wire,    \* Seq(message)  the links' `sent` queues (held), in enqueue order
     part,    \* [Hosts -> none | c2s | s2c | both]  explicit partition of the link host <-> server
+    cport,   \* [Conns -> Nat]  local (ephemeral) port of the connector, 0 = none yet
+    ecur,    \* [Hosts -> Nat]  Host::next_ephemeral_port (only used when NPorts > 0)
     nact, nwr,
     last
 
-mivars == <<side, cred, fut, osh, lq, wire, part, nact, nwr>>
+mivars == <<side, cred, fut, osh, lq, wire, part, cport, ecur, nact, nwr>>
 vars   == <<mpvars, mivars, last>>
 
 \* ent: entry in Tcp::sockets; ref: half-close reference count; nseq: next_send_seq;
@@ -80,6 +85,8 @@ Init ==
     /\ cred = [k \in CS |-> Cap]
     /\ wire = <<>>
     /\ part = [h \in Hosts |-> "none"]
+    /\ cport = [c \in Conns |-> IF Pre /\ c = 1 THEN (IF NPorts = 0 THEN 101 ELSE 1) ELSE 0]
+    /\ ecur = [h \in Hosts |-> IF Pre /\ h = 1 /\ NPorts > 1 THEN 2 ELSE 1]
     /\ nact = 0 /\ nwr = [k \in CS |-> 0]
     /\ last = [a |-> "init"]
     /\ IF ~Pre
@@ -108,6 +115,20 @@ RemoveAt(w, i) == SubSeq(w, 1, i - 1) \o SubSeq(w, i + 1, Len(w))
 
 CHost(c) == att[c].h
 
+\* Host::assign_ephemeral_port of connector host h: next fit from the cursor among the ports no
+\* client entry of that host uses; port 0 = "ports exhausted" (documented panic)
+PortsInUse(h) == {cport[x] : x \in {y \in Conns : side[<<y, 1>>].ent /\ att[y].h = h}}
+NextP(p) == IF p >= NPorts THEN 1 ELSE p + 1
+RECURSIVE AllocP(_, _, _)
+AllocP(h, p, k) == IF k = 0 THEN [port |-> 0, cur |-> p]
+                   ELSE IF p \notin PortsInUse(h) THEN [port |-> p, cur |-> NextP(p)]
+                   ELSE AllocP(h, NextP(p), k - 1)
+Alloc(h, c) == IF NPorts = 0 THEN [port |-> 100 + c, cur |-> ecur[h]] ELSE AllocP(h, ecur[h], NPorts)
+
+\* Segments are matched by address: the entry (if any) a message of connector c finds at its destination
+SameAddr(x, y) == att[x].h = att[y].h /\ cport[x] = cport[y]
+Target(m) == {x \in Conns : side[<<x, m.to>>].ent /\ SameAddr(x, m.c)}
+
 Act(lbl) == nact' = nact + 1 /\ last' = lbl
 In(a) == a \in Alpha /\ nact < MaxAct
 
@@ -123,7 +144,7 @@ Bind(p, kind) ==
        ELSE /\ lq' = [lq EXCEPT ![p] = [bound |-> TRUE, kind |-> kind, q |-> <<>>]]
             /\ P_Bind(SH, p, kind)
             /\ Act([a |-> "bind", p |-> p, kind |-> kind, res |-> "ok"])
-    /\ UNCHANGED <<side, cred, fut, osh, wire, part, nwr>>
+    /\ UNCHANGED <<side, cred, fut, osh, wire, part, nwr, cport, ecur>>
 
 \* drop of the TcpListener: Tcp::unbind discards the queued SYNs (their one-shot senders drop)
 DropListener(p) ==
@@ -132,13 +153,16 @@ DropListener(p) ==
     /\ lq' = [lq EXCEPT ![p] = NoLq]
     /\ P_DropListener(SH, p)
     /\ Act([a |-> "drop_listener", p |-> p])
-    /\ UNCHANGED <<side, cred, fut, wire, part, nwr>>
+    /\ UNCHANGED <<side, cred, fut, wire, part, nwr, cport, ecur>>
 
 \* TcpStream::connect, first poll: assign the port, register the entry, send the SYN, wait.
 \* A send that fails (no link) and a refused / cancelled attempt remove the entry again.
 Connect(c, h, p, dk, lo) ==
     /\ In("connect") /\ dk \in DestKinds
     /\ fut[c] = "none" /\ \A b \in Conns : b < c => fut[b] # "none"
+    /\ Alloc(h, c).port # 0
+    /\ cport' = [cport EXCEPT ![c] = Alloc(h, c).port]
+    /\ ecur' = [ecur EXCEPT ![h] = Alloc(h, c).cur]
     /\ IF dk = "none" \/ Blocked(h, 2)
        THEN \* nothing is sent (Topology::enqueue_message fails) or the SYN is dropped at once:
             \* the future resolves to ConnectionRefused in this very poll
@@ -168,7 +192,7 @@ DeliverSyn(i) ==
        /\ wire' = RemoveAt(wire, i)
        /\ P_SynArrive(c)
        /\ Act([a |-> "deliver", c |-> c, to |-> 2, kind |-> "syn", seq |-> 0])
-    /\ UNCHANGED <<side, cred, fut, part, nwr>>
+    /\ UNCHANGED <<side, cred, fut, part, nwr, cport, ecur>>
 
 \* TcpListener::accept, one poll: pop SYNs front to back, skip those whose connector is gone
 FirstLive(q) == IF \E i \in 1..Len(q) : fut[q[i]] = "pending"
@@ -183,12 +207,13 @@ Accept(p) ==
             /\ Act([a |-> "accept", p |-> p, res |-> "pending", c |-> 0])
             /\ UNCHANGED <<side, osh>>
        ELSE LET c == q[i] IN
+            /\ \A x \in Conns : side[<<x, 2>>].ent => ~SameAddr(x, c)      \* else: documented panic "already connected"
             /\ lq' = [lq EXCEPT ![p].q = SubSeq(q, i + 1, Len(q))]
             /\ osh' = [osh EXCEPT ![c] = "acked"]
             /\ side' = [side EXCEPT ![<<c, 2>>] = NewSide]
             /\ P_Accept(SH, p, c, AddrS(p), AddrC(c))
             /\ Act([a |-> "accept", p |-> p, res |-> "ok", c |-> c])
-    /\ UNCHANGED <<cred, fut, wire, part, nwr>>
+    /\ UNCHANGED <<cred, fut, wire, part, nwr, cport, ecur>>
 
 \* the pending connect future is polled again
 Poll(c) ==
@@ -207,7 +232,7 @@ Poll(c) ==
               /\ UNCHANGED <<fut, side>>
               /\ P_Poll(c, "pending", "", "")
               /\ Act([a |-> "poll", c |-> c, res |-> "pending"])
-    /\ UNCHANGED <<cred, osh, lq, wire, part, nwr>>
+    /\ UNCHANGED <<cred, osh, lq, wire, part, nwr, cport, ecur>>
 
 \* the connect future is dropped while pending (timeout)
 Cancel(c) ==
@@ -218,14 +243,14 @@ Cancel(c) ==
     /\ wire' = Send(wire, CHost(c), Msg(c, 2, "rst", 0, <<>>))
     /\ P_Cancel(c)
     /\ Act([a |-> "cancel", c |-> c])
-    /\ UNCHANGED <<cred, osh, lq, part, nwr>>
+    /\ UNCHANGED <<cred, osh, lq, part, nwr, cport, ecur>>
 
 ---------------------------------------------------------------------------
 (* stream halves *)
 
 \* WriteHalf::poll_write / try_write with a non-empty buffer, one poll
 Write(c, s, len) ==
-    /\ In("write") /\ hv[<<c, s>>].w /\ len \in WriteLens /\ nwr[<<c, s>>] < MaxWrites
+    /\ In("write") /\ hv[<<c, s>>].w /\ len \in WriteLens /\ len > 0 /\ nwr[<<c, s>>] < MaxWrites
     /\ LET k == <<c, s>>  data == Data(c, s, len) IN
        IF side[k].shut \/ side[k].wreset
        THEN \* shut down, or the stream was reset (no credit will ever come back): fail at once
@@ -245,7 +270,17 @@ Write(c, s, len) ==
             /\ nwr' = [nwr EXCEPT ![k] = @ + 1]
             /\ P_Write(c, s, data)
             /\ Act([a |-> "write", c |-> c, s |-> s, data |-> data, res |-> "ok"])
-    /\ UNCHANGED <<fut, osh, lq, part>>
+    /\ UNCHANGED <<fut, osh, lq, part, cport, ecur>>
+
+\* A zero-length write is a no-op: no credit, no sequence number, no segment.
+\* via = "try": TcpStream::try_write(&[]) (whole streams only) returns Ok(0) even after shutdown;
+\* via = "poll": AsyncWrite::poll_write checks is_shutdown first.
+Write0(c, s, via) ==
+    /\ In("write") /\ 0 \in WriteLens /\ hv[<<c, s>>].w
+    /\ via \in {"try", "poll"} /\ (via = "try" => hv[<<c, s>>].r)
+    /\ Act([a |-> "write", c |-> c, s |-> s, data |-> <<>>, via |-> via,
+            res |-> IF via = "poll" /\ side[<<c, s>>].shut THEN "brokenpipe" ELSE "ok"])
+    /\ UNCHANGED <<mpvars, side, cred, fut, osh, lq, wire, part, nwr, cport, ecur>>
 
 \* WriteHalf::poll_shutdown
 Shutdown(c, s) ==
@@ -261,7 +296,7 @@ Shutdown(c, s) ==
             /\ wire' = Send(wire, CHost(c), Msg(c, Other(s), "fin", side[k].nseq, <<>>))
             /\ P_Shutdown(c, s)
             /\ Act([a |-> "shutdown", c |-> c, s |-> s, res |-> "ok"])
-    /\ UNCHANGED <<cred, fut, osh, lq, part, nwr>>
+    /\ UNCHANGED <<cred, fut, osh, lq, part, nwr, cport, ecur>>
 
 Take(b, n) == SubSeq(b, 1, IF n < Len(b) THEN n ELSE Len(b))
 Drop(b, n) == SubSeq(b, (IF n < Len(b) THEN n ELSE Len(b)) + 1, Len(b))
@@ -293,7 +328,7 @@ ReadLike(c, s, n, peek) ==
        ELSE IF ~sd.ent
        THEN /\ Obs("reset", <<>>) /\ Lbl("reset", <<>>) /\ UNCHANGED <<side, cred>>
        ELSE /\ Obs("pending", <<>>) /\ Lbl("pending", <<>>) /\ UNCHANGED <<side, cred>>
-    /\ UNCHANGED <<fut, osh, lq, wire, part, nwr>>
+    /\ UNCHANGED <<fut, osh, lq, wire, part, nwr, cport, ecur>>
 
 Read(c, s, n) == In("read") /\ n \in ReadSizes /\ ReadLike(c, s, n, FALSE)
 Peek(c, s, n) == In("peek") /\ n \in PeekSizes /\ ReadLike(c, s, n, TRUE)
@@ -326,7 +361,7 @@ DropRead(c, s) ==
        /\ wire' = IF e.rst THEN Send(wire, CHost(c), Msg(c, Other(s), "rst", 0, <<>>)) ELSE wire
        /\ P_DropHalf(c, s, "r")
        /\ Act([a |-> "drop_half", c |-> c, s |-> s, h |-> "r"])
-    /\ UNCHANGED <<cred, fut, osh, lq, part, nwr>>
+    /\ UNCHANGED <<cred, fut, osh, lq, part, nwr, cport, ecur>>
 
 DropWrite(c, s) ==
     /\ In("drop_half") /\ hv[<<c, s>>].w
@@ -335,7 +370,7 @@ DropWrite(c, s) ==
        /\ wire' = IF e.fin > 0 THEN Send(wire, CHost(c), Msg(c, Other(s), "fin", e.fin, <<>>)) ELSE wire
        /\ P_DropHalf(c, s, "w")
        /\ Act([a |-> "drop_half", c |-> c, s |-> s, h |-> "w"])
-    /\ UNCHANGED <<cred, fut, osh, lq, part, nwr>>
+    /\ UNCHANGED <<cred, fut, osh, lq, part, nwr, cport, ecur>>
 
 \* drop of the whole TcpStream: read half, then write half
 DropStream(c, s) ==
@@ -348,7 +383,7 @@ DropStream(c, s) ==
        /\ wire' = IF e2.fin > 0 THEN Send(w1, CHost(c), Msg(c, Other(s), "fin", e2.fin, <<>>)) ELSE w1
        /\ P_DropStream(c, s)
        /\ Act([a |-> "drop_stream", c |-> c, s |-> s])
-    /\ UNCHANGED <<cred, fut, osh, lq, part, nwr>>
+    /\ UNCHANGED <<cred, fut, osh, lq, part, nwr, cport, ecur>>
 
 ---------------------------------------------------------------------------
 (* delivery of segments: Tcp::receive_from_network + StreamSocket::buffer *)
@@ -368,27 +403,30 @@ Release(rb, rs, ch, open) ==
 
 DeliverSeg(i) ==
     /\ In("deliver") /\ i \in 1..Len(wire) /\ wire[i].kind \in {"data", "fin"}
-    /\ LET m == wire[i]  k == <<m.c, m.to>>  sd == side[k]  w0 == RemoveAt(wire, i)
+    /\ LET m == wire[i]  T == Target(m)  w0 == RemoveAt(wire, i)
            back == Msg(m.c, Other(m.to), "rst", 0, <<>>) IN
-       IF ~sd.ent
-       THEN \* segment for an unknown stream: answered with RST
+       IF T = {}
+       THEN \* segment for an unknown stream: data is answered with RST, a FIN is ignored
             /\ wire' = IF m.kind = "fin" /\ ~RstOnFin THEN w0 ELSE Send(w0, CHost(m.c), back)
             /\ side' = side
-       ELSE LET r == Release(sd.rob \cup {[seq |-> m.seq, kind |-> m.kind, data |-> m.data]}, sd.rseq, sd.chan, sd.rxo) IN
+       ELSE LET k == <<CHOOSE x \in T : TRUE, m.to>>  sd == side[k]
+                r == Release(sd.rob \cup {[seq |-> m.seq, kind |-> m.kind, data |-> m.data]}, sd.rseq, sd.chan, sd.rxo) IN
             /\ side' = [side EXCEPT ![k].rob = r.rob, ![k].rseq = r.rseq, ![k].chan = r.chan]
             /\ wire' = IF r.rst THEN Send(w0, CHost(m.c), back) ELSE w0
     /\ Act([a |-> "deliver", c |-> wire[i].c, to |-> wire[i].to, kind |-> wire[i].kind, seq |-> wire[i].seq])
-    /\ UNCHANGED <<mpvars, cred, fut, osh, lq, part, nwr>>
+    /\ UNCHANGED <<mpvars, cred, fut, osh, lq, part, cport, ecur, nwr>>
 
 \* RST: the entry is removed at once (its queue sender goes away)
 DeliverRst(i) ==
     /\ In("deliver") /\ i \in 1..Len(wire) /\ wire[i].kind = "rst"
     /\ \A j \in 1..(i - 1) : wire[j] # wire[i]          \* identical RSTs are interchangeable: the oldest goes first
-    /\ LET m == wire[i]  k == <<m.c, m.to>> IN
-       /\ side' = IF side[k].ent THEN [side EXCEPT ![k].ent = FALSE, ![k].ref = 0, ![k].rob = {}, ![k].wreset = TRUE] ELSE side
+    /\ LET m == wire[i]  T == Target(m) IN
+       /\ side' = IF T = {} THEN side
+                  ELSE LET k == <<CHOOSE x \in T : TRUE, m.to>> IN
+                       [side EXCEPT ![k].ent = FALSE, ![k].ref = 0, ![k].rob = {}, ![k].wreset = TRUE]
        /\ wire' = RemoveAt(wire, i)
     /\ Act([a |-> "deliver", c |-> wire[i].c, to |-> wire[i].to, kind |-> "rst", seq |-> 0])
-    /\ UNCHANGED <<mpvars, cred, fut, osh, lq, part, nwr>>
+    /\ UNCHANGED <<mpvars, cred, fut, osh, lq, part, cport, ecur, nwr>>
 
 ---------------------------------------------------------------------------
 (* the test controller *)
@@ -409,7 +447,7 @@ Partition(h, how) ==
        /\ part' = [part EXCEPT ![h] = IF how = "both" \/ @ # "none" THEN "both" ELSE how]
        /\ P_Partition(dirs, doomed)
     /\ Act([a |-> "partition", h |-> h, how |-> how])
-    /\ UNCHANGED <<side, cred, fut, lq, nwr>>
+    /\ UNCHANGED <<side, cred, fut, lq, nwr, cport, ecur>>
 
 \* Sim::repair(h, server) (followed by hold again: the link stays under manual delivery)
 Repair(h) ==
@@ -417,21 +455,21 @@ Repair(h) ==
     /\ part' = [part EXCEPT ![h] = "none"]
     /\ P_Repair({<<h, SH>>, <<SH, h>>})
     /\ Act([a |-> "repair", h |-> h])
-    /\ UNCHANGED <<side, cred, fut, osh, lq, wire, nwr>>
+    /\ UNCHANGED <<side, cred, fut, osh, lq, wire, nwr, cport, ecur>>
 
 \* Sim::links shows nothing in flight
 Quiet ==
     /\ In("quiet") /\ wire = <<>> /\ ~quiet
     /\ P_Quiet
     /\ Act([a |-> "quiet"])
-    /\ UNCHANGED <<side, cred, fut, osh, lq, wire, part, nwr>>
+    /\ UNCHANGED <<side, cred, fut, osh, lq, wire, part, nwr, cport, ecur>>
 
 \* a step boundary matters only for refusals that are due
 Tick ==
     /\ In("poll") /\ \E c \in Conns : att[c].must /\ ~att[c].late /\ att[c].st = "pending"
     /\ P_Step
     /\ Act([a |-> "tick"])
-    /\ UNCHANGED <<side, cred, fut, osh, lq, wire, part, nwr>>
+    /\ UNCHANGED <<side, cred, fut, osh, lq, wire, part, nwr, cport, ecur>>
 
 ---------------------------------------------------------------------------
 Next ==
@@ -443,6 +481,7 @@ Next ==
     \/ \E c \in Conns : Poll(c)
     \/ \E c \in Conns : Cancel(c)
     \/ \E c \in Conns, s \in Sides, len \in WriteLens : Write(c, s, len)
+    \/ \E c \in Conns, s \in Sides, via \in {"try", "poll"} : Write0(c, s, via)
     \/ \E c \in Conns, s \in Sides : Shutdown(c, s)
     \/ \E c \in Conns, s \in Sides, n \in ReadSizes : Read(c, s, n)
     \/ \E c \in Conns, s \in Sides, n \in PeekSizes : Peek(c, s, n)
